@@ -31,7 +31,7 @@ def run(pid, tier, seed, replay=None):
     if replay:
         tr = json.load(open(replay))["trace"]
         kind = tr["kind"]
-        trs = _fix(run_tasks("flow", RUNNERS[kind], [tr["input"]], timeout=20), [tr["input"]], kind)
+        trs = _fix(run_tasks("flow", RUNNERS[kind], [tr["input"]], timeout=120), [tr["input"]], kind)
         ck.classify(trs, ck.validate(DIR, "FlowTrace", trs, "replay"))
         return ck.finish()
     if pid == "C08":
@@ -41,7 +41,7 @@ def run(pid, tier, seed, replay=None):
         ck.mc(DIR, "FlowAlgs", "NC_rev.cfg", expect_violation="NeverUsesReverseArc")
         nq = 600 if tier == "quick" else 8000
         cases = [drv.gen_maxflow(rng, nmax=5 if i % 4 == 0 else 10) for i in range(nq)] + [drv.unit_layered(rng) for _ in range(nq)]
-        trs = _fix(run_tasks("flow", "run_maxflow", cases, timeout=20), cases, "maxflow")
+        trs = _fix(run_tasks("flow", "run_maxflow", cases, timeout=120), cases, "maxflow")
         bulk = [{"seed": rng.randint(0, 10 ** 9), "count": 6000 if tier == "quick" else 80000} for _ in range(14)]
         cov = {}
         for r in run_tasks("flow", "run_maxflow_bulk", bulk, timeout=900):
@@ -63,8 +63,8 @@ def run(pid, tier, seed, replay=None):
         c1 += [drv.gen_mincost_longroute(rng) for _ in range(nq // 2)]
         c2 = [drv.gen_mincost(rng, general=True) for _ in range(nq)]
         c3 = [drv.gen_assign(rng) for _ in range(nq // 2)]
-        trs = (_fix(run_tasks("flow", "run_mincost", c1 + c2, timeout=4), c1 + c2, "mincost")
-               + _fix(run_tasks("flow", "run_assign", c3, timeout=10), c3, "assign"))
+        trs = (_fix(run_tasks("flow", "run_mincost", c1 + c2, timeout=120), c1 + c2, "mincost")
+               + _fix(run_tasks("flow", "run_assign", c3, timeout=120), c3, "assign"))
         # coverage-directed bulk: many tight network-simplex instances, only executions taking rare actions are validated
         bulk = [{"seed": rng.randint(0, 10 ** 9), "count": 3000 if tier == "quick" else 40000} for _ in range(14)]
         cov = {}
@@ -82,7 +82,7 @@ def run(pid, tier, seed, replay=None):
         sc = [drv.gen_ns_tight(rng) for _ in range(400 if tier == "quick" else 6000)]
         sc += [{"n": c["n"], "arcs": c["arcs"], "supplies": c["supplies"]} for c in c2 if c.get("supplies") and
                len({(a[0], a[1]) for a in c["arcs"]}) == len(c["arcs"])][:200 if tier == "quick" else 2000]
-        st = [r for r in run_tasks("flow", "run_ns_steps", sc, timeout=20) if isinstance(r, dict) and "steps" in r]
+        st = [r for r in run_tasks("flow", "run_ns_steps", sc, timeout=120) if isinstance(r, dict) and "steps" in r]
         if len(st) < len(sc) // 2:
             raise tlc.MachineryError("network-simplex step traces could not be recorded (%d of %d)" % (len(st), len(sc)))
         st += bulk_steps         # the executions the coverage-directed generator kept (rare pivots, long sequences)
